@@ -387,6 +387,16 @@ pub fn gen_object(rng: &mut Rng, enc: Enc, o: &GenOpts) -> (ObjSpec, ObjModel) {
         spec.secs[i].name = name;
     }
 
+    // names built from the string literals of the crate's own code (prefixes it may treat specially), with a few
+    // common tails, so that such a section exists next to queries for its siblings
+    if !spec.secs.is_empty() && !crate::abi_table::SRC_STRINGS.is_empty() && rng.chance(1, 6) {
+        let i = rng.usize_below(spec.secs.len());
+        let lit = crate::abi_table::SRC_STRINGS[rng.usize_below(crate::abi_table::SRC_STRINGS.len())];
+        let mut name = lit.as_bytes().to_vec();
+        name.extend_from_slice(*rng.pick(&[&b""[..], b"info", b"info", b"x", b"_str"]));
+        spec.secs[i].name = name;
+    }
+
     // a section name ending in a boundary byte now and then
     if !spec.secs.is_empty() && rng.chance(1, 8) {
         let i = rng.usize_below(spec.secs.len());
